@@ -41,10 +41,20 @@ def main(argv=None):
         anchors = getattr(mod, 'ANCHORS', [])
         reach = probes.ReachMonitor(anchors)
         reach.start()
+        cover = None
+        if os.environ.get('VMON_COVER_DIR'):
+            import emsarray
+            cover = probes.PackageCoverage(os.path.dirname(emsarray.__file__) + os.sep)
+            cover.start()
         try:
             mod.run(ctx)
         finally:
             reach.stop()
+            if cover is not None:
+                cover.stop()
+                os.makedirs(os.environ['VMON_COVER_DIR'], exist_ok=True)
+                with open(os.path.join(os.environ['VMON_COVER_DIR'], '%s-%d.json' % (opts.prop, opts.shard)), 'w') as f:
+                    json.dump(sorted(cover.hit), f)
         result['ok'] = True
     except BaseException as exc:  # noqa: BLE001
         obs.harness_error('worker', exc)
